@@ -646,7 +646,7 @@ def extract(g, X):
             arm = [b for p, b in arms if re.fullmatch(r'"%s"' % re.escape(kw), p.strip())]
             if len(arm) != 1:
                 raise ValueError("arm " + kw)
-            inner = match_body(arm[0], r"match\s+n\s*\{", "match n")
+            inner = match_body(arm[0], r"match\s+\w+\s*\{", "match on the integer operand")
             out = []
             for p, b in match_arms(inner):
                 if re.fullmatch(r"\d+", p.strip()):
